@@ -47,6 +47,7 @@ type runRecord struct {
 	Nontrivial bool            `json:"nontrivial"`
 	WallUs     int64           `json:"wall_us"`
 	Sample     json.RawMessage `json:"sample,omitempty"`
+	Plan       json.RawMessage `json:"plan,omitempty"`
 }
 
 type job struct {
@@ -179,10 +180,11 @@ func buildWorker(variant string) (string, error) {
 // ---- running workers ----------------------------------------------------------------
 
 type workerResult struct {
-	recs    []runRecord
-	died    bool
-	stderr  string
-	current []byte // plan being executed when the worker died
+	watchdog bool
+	recs     []runRecord
+	died     bool
+	stderr   string
+	current  []byte // plan being executed when the worker died
 }
 
 func runWorker(bin string, j job, gomaxprocs int, extraEnv ...string) workerResult {
@@ -196,8 +198,28 @@ func runWorker(bin string, j job, gomaxprocs int, extraEnv ...string) workerResu
 	var eb bytes.Buffer
 	cmd.Stderr = &eb
 	cmd.Stdout = &eb
-	err := cmd.Run()
+	// watchdog: a worker that makes no progress (the code under test spins or blocks on
+	// something the simulator does not own) is killed; that is harness trouble (exit 2)
+	limit := 10 * time.Minute
+	if j.Deadline > 0 {
+		limit = time.Until(time.Unix(j.Deadline, 0)) + 90*time.Second
+	} else if j.PlanFile != "" {
+		limit = 60 * time.Second
+	}
 	var res workerResult
+	err := cmd.Start()
+	if err == nil {
+		done := make(chan error, 1)
+		go func() { done <- cmd.Wait() }()
+		select {
+		case err = <-done:
+		case <-time.After(limit):
+			cmd.Process.Kill()
+			<-done
+			res.watchdog = true
+			err = fmt.Errorf("watchdog")
+		}
+	}
 	if f, e := os.Open(j.Out); e == nil {
 		sc := bufio.NewScanner(f)
 		sc.Buffer(make([]byte, 1<<20), 1<<26)
@@ -331,6 +353,7 @@ func check(prop string, args []string) int {
 	budget := fs.Int("budget", 0, "seconds of exploration (0 = tier default)")
 	maxRuns := fs.Int("runs", 0, "maximum number of runs (0 = tier default)")
 	nw := fs.Int("workers", 0, "worker processes (0 = all cores)")
+	fast := fs.Bool("fast", false, "do not minimise violations (sensitivity sweeps); the unminimised plan is the replay file")
 	fs.Parse(args)
 	seed, err := strconv.ParseUint(*seedS, 10, 64)
 	if err != nil {
@@ -386,6 +409,7 @@ func check(prop string, args []string) int {
 		stderr string
 	}
 	var deaths []death
+	watchdogs := 0
 	var wg sync.WaitGroup
 	for w := 0; w < workers; w++ {
 		wg.Add(1)
@@ -420,7 +444,10 @@ func check(prop string, args []string) int {
 						last = r.Run
 					}
 				}
-				if res.died {
+				if res.watchdog {
+					watchdogs++
+				}
+				if res.died && !res.watchdog {
 					deaths = append(deaths, death{res.current, res.stderr})
 					var cp plan.Plan
 					if json.Unmarshal(res.current, &cp) == nil && cp.Run > last {
@@ -437,6 +464,10 @@ func check(prop string, args []string) int {
 	}
 	wg.Wait()
 	sort.Slice(all, func(i, j int) bool { return all[i].Run < all[j].Run })
+	if watchdogs > 0 {
+		fmt.Fprintf(os.Stderr, "vcheck: %d worker(s) were killed by the watchdog (no progress): the code under test spins or blocks outside the simulator's seams\n", watchdogs)
+		return 2
+	}
 
 	// ---- collect violations by signature
 	type found struct {
@@ -455,6 +486,12 @@ func check(prop string, args []string) int {
 			f := bySig[v.Sig]
 			if f == nil {
 				f = &found{v: v, run: r.Run}
+				if len(r.Plan) > 0 {
+					var pp plan.Plan
+					if json.Unmarshal(r.Plan, &pp) == nil {
+						f.plan = &pp // the plan exactly as the worker executed it
+					}
+				}
 				bySig[v.Sig] = f
 			}
 			f.n++
@@ -519,7 +556,13 @@ func check(prop string, args []string) int {
 		if b, ok := bins[p.Build]; ok {
 			bin = b
 		}
-		min, ok := minimise(bin, p, f.v, dir)
+		var min *plan.Plan
+		ok := false
+		if *fast {
+			min, ok = p, true
+		} else {
+			min, ok = minimise(bin, p, f.v, dir)
+		}
 		if !ok && strings.Contains(f.v.Class, "data-race") {
 			// the race detector reported it in the batch; it did not report again on replay
 			// (see runPlan): keep the unminimised plan and the original report
@@ -540,7 +583,18 @@ func check(prop string, args []string) int {
 		exit = 1
 	}
 
-	writeEvidence(prop, *tier, seed, all, len(deaths), nViol, len(knownHit), time.Since(t0), variants, workers)
+	determinism := map[string]int{}
+	if *tier == "thorough" {
+		// determinism proof for this property's scenarios: same seeded runs in separate
+		// processes at GOMAXPROCS 1, 1, 4 and 16
+		bad, total, noise := selftestProps([]string{prop}, 60, false)
+		determinism = map[string]int{"comparisons": total, "diverged": bad, "differed_under_load_but_replay_identically": noise}
+		if bad > 0 {
+			fmt.Fprintf(os.Stderr, "vcheck: determinism self-test failed for %s\n", prop)
+			return 2
+		}
+	}
+	writeEvidence(prop, *tier, seed, all, len(deaths), nViol, len(knownHit), time.Since(t0), variants, workers, determinism)
 	fmt.Printf("%s %s: %d runs, %d violation classes, %d known findings, %.1fs\n", prop, *tier, len(all), nViol, len(knownHit), time.Since(t0).Seconds())
 	return exit
 }
@@ -720,7 +774,7 @@ func replay(path string, verbose bool) int {
 
 // ---- evidence ---------------------------------------------------------------------------
 
-func writeEvidence(prop, tier string, seed uint64, all []runRecord, deaths, nViol, nKnown int, wall time.Duration, variants []string, workers int) {
+func writeEvidence(prop, tier string, seed uint64, all []runRecord, deaths, nViol, nKnown int, wall time.Duration, variants []string, workers int, determinism map[string]int) {
 	sigs := map[string]bool{}
 	nontrivSigs := map[string]bool{}
 	faults := map[string]int{}
@@ -801,6 +855,33 @@ type meta struct {
 var libParts = []string{"tacquito.Server.Serve/serve/handle", "crypter read/write + MD5 pad", "sessions", "waitGroup", "response.Reply", "header/packet/body codecs"}
 var refParts = append(append([]string{}, libParts...), "cmds/server/loader (Loader, prefix filters)", "loader/yaml or loader/json", "config/secret/prefix provider", "handlers (Start, AuthenticateStart/ASCII/PAP, AuthorizeRequest, AccountingRequest, ResponseLogger)", "authenticators/bcrypt", "authorizers/stringy", "accounters/local", "gopkg.in/yaml.v3 / encoding/json", "x/crypto/bcrypt")
 
-var propMeta = map[string]meta{}
+func mk(rule string, parts []string, assume ...string) meta {
+	return meta{rule: rule, realParts: parts, assume: assume}
+}
+
+var clientParts = []string{"tacquito.Client (Send/SendOnly/Close) over the simulated connection via the verif-tagged SetClientConn", "crypter read/write + MD5 pad", "header/packet/body codecs"}
+
+var propMeta = map[string]meta{
+	"C01": mk("Families: model client vs real server (probe handlers decode with the library, reply through Response.Reply) and real tacquito.Client vs model server.", append(append([]string{}, libParts...), clientParts...), "input property: schedules and faults are on but do not decide; the independent RFC 8907 peer decides"),
+	"C02": mk("Same pairings as C01 with values on both sides of every wire-width boundary; plus the passive tap (decode-encode-decode on every body seen on the wire).", append(append([]string{}, libParts...), clientParts...), "input property: the independent representability model decides"),
+	"C03": mk("Same pairings as C01 with secrets of 0..64 octets, boundary session ids, both versions, sequence numbers up to 255 and body lengths around multiples of 16 and 65536.", append(append([]string{}, libParts...), clientParts...), "input property: the independent MD5 pad decides"),
+	"C04": mk("Families: hostile streams into the real server with probe handlers, into the reference server, and hostile replies into the real client; every truncation is a connection cut, every corruption a bit flipped in transit; the tap hands every observed prefix, packet and body to all public decoders with poisoned spare capacity; allocation is measured per scheduler step.", append(append([]string{}, refParts...), clientParts...), "covers byte strings reachable on the simulated wire under the injected faults"),
+	"C05": mk("1..12 pipelined packets (bodies 0..65536) with every read boundary decided by the tape; sub-scenarios: oversize header only, stream cut inside a packet, stall past the deadline.", libParts),
+	"C06": mk("Multi-packet, multi-session exchanges with every flag octet, both minor versions, sequence numbers up to 255; raw-byte tap on every reply.", libParts),
+	"C07": mk("Reference server under generated configurations; all AAA paths incl. error paths, keychain faults and rejection workloads; model-free clause: packets written inside each handler invocation.", refParts),
+	"C08": mk("Histories of (session, sequence number, kind) incl. replays, even numbers, decreases, jumps and the top of the sequence space against scripted continuations; compared with an executable session-table model.", libParts),
+	"C09": mk("2..8 session scripts per connection on up to 4 connections, interleaving chosen by the seed, overlap by the tape (batch steps, handlers parked at logger/keychain/sink seams); every session is also run alone on a fresh server and the raw transcripts compared.", refParts),
+	"C10": mk("Generated users x groups x scopes x authenticators (inline hash, keychain, odd options) and every START variant, ASCII/PAP logins, aborts, stray CONTINUEs, mid-exchange STARTs; statuses compared with the reference model.", refParts),
+	"C11": mk("Generated permit/deny rules (alternations, partial anchors, escaped metacharacters, invalid syntax, whitespace), services with match conditions, arbitrary request argument lists; compared with the independent policy evaluator.", refParts, "input/configuration property: the evaluator decides, schedules do not"),
+	"C12": mk("Accounting requests with every flag octet and text over all 128 ASCII codes; simulated sink renders Printf exactly; record decoded independently.", refParts),
+	"C13": mk("Remote addresses (IPv4, IPv6, IPv4-mapped, prefix boundaries and neighbours, non-TCP) handed out by the simulated listener against overlapping prefixes and deny/allow lists; compared with the admission evaluator.", refParts, "input/configuration property: the evaluator decides"),
+	"C14": mk("Hostile clients (random bytes, mutated/truncated packets, oversize, every body kind in every handler state, odd authenticator options, key mismatches) next to control clients before and after.", refParts),
+	"C15": mk("race-batches (race-detector build, batch steps, Gosched yield seams), atomic-reload (yield-instrumented loader, porcupine), published-config-immutable (snapshots).", append(append([]string{}, refParts...), "Go race detector", "cmds/server/loader/loader.go with a parking point before every statement (yield build)")),
+	"C16": mk("config-history: one long-lived YAML/JSON loader vs a fresh one after every step of a document history with torn/short/stale-tail/empty/garbage file faults; reload-end-to-end: the reference server reloads while clients come and go.", refParts, "fsnotify's inotify loop is stubbed by calling Load/Unmarshal on the same loader object"),
+	"C17": mk("0..6 connections idle/mid-header/mid-body/handler parked/write blocked; cancellation, accept faults and listener close placed by the tape (also in the same step as an accept or delivery); clock advanced to just before/at/after each deadline.", libParts),
+	"C18": mk("All authentication histories of C10 with unique 20-character passwords and secrets; every logger call recorded; token scan in raw/hex/base64/byte-list form.", refParts),
+	"C19": mk("Clients holding another secret (and the converse: same secret, clear flag); bodies classified by the independent length-consistency classifier.", refParts, "input property: the classifier decides"),
+	"C20": mk("Histories mixing completed/abandoned sessions, refused admissions, even first sequence numbers, key mismatches, resets, shutdown with open connections; gauges read at every quiescent step.", libParts, "gauges are process-global: values are relative to the run's baseline"),
+}
 
 // makeYieldCopy is defined in yield.go.
